@@ -98,3 +98,10 @@ Proof.
   destruct (descent_of m l x); [|apply Ha|reflexivity].
   apply bind_ext; [reflexivity|]. exact Ha.
 Qed.
+
+(* ---------------- scheduling the tasks of an entered state ---------------- *)
+Theorem schedule_skeleton_bridge eng m x s : run_schedule_skeleton schedule_skeleton eng m x s = sched_run eng m x s.
+Proof.
+  unfold run_schedule_skeleton, schedule_skeleton, sched_run. cbn [for_each run_seff].
+  apply bind_ext; [reflexivity|]. intros s1. apply bind_ext; [reflexivity|]. intros s2. apply bind_ret_r.
+Qed.
